@@ -203,7 +203,12 @@ func (r *RPCSendHeaders) decodeResponse(d *types.Decoder) {
 	types.DecodeSlice(d, &r.Headers)
 	r.Remaining = d.ReadUint64()
 }
-func (r *RPCSendHeaders) maxResponseLen() int { return 8 + int(r.Max)*(32+8+8+32) + 8 }
+func (r *RPCSendHeaders) maxResponseLen() int {
+	// cap Max so that the product cannot overflow
+	const sizeofHeader = 32 + 8 + 8 + 32
+	const maxHeaders = (math.MaxInt - 16) / sizeofHeader
+	return 8 + int(min(r.Max, maxHeaders))*sizeofHeader + 8
+}
 
 // RPCSendV2Blocks requests a set of blocks.
 type RPCSendV2Blocks struct {
